@@ -393,6 +393,12 @@ func exploreIsolated(r *Run, s HarnessSpec, id string) (enum.Stats, []enum.Viola
 		for _, o := range st.Outcomes {
 			outc[o] = true
 		}
+		if total.OutcomeCounts == nil {
+			total.OutcomeCounts = map[string]int{}
+		}
+		for o, n := range st.OutcomeCounts {
+			total.OutcomeCounts[o] += n
+		}
 		if len(total.Samples) < 4 {
 			total.Samples = append(total.Samples, st.Samples...)
 		}
